@@ -25,6 +25,13 @@ Oracles (all independent of networkx / gemseo):
   (I - M) z = c + B x over all variables.  ``MDOChain(flattened sequence)`` for acyclic graphs without
   self-loops and ``MDAChain`` for every graph must return z (derived tolerance below) and run each body
   exactly once when there is no cycle.
+* Nodes as processes (execution part): every non-empty subset of the nodes is replaced by (a) a nested MDA - the
+  node split in two internally coupled harness halves ``p{i}`` <-> ``q{i}`` inside ``MDAJacobi`` / ``MDAGaussSeidel``,
+  or, for a node with a self-loop, the single self-coupled harness discipline wrapped alone - or (b) a nested
+  ``MDOChain`` of two harness halves, in every listing order.  For the structural oracle a nested process is one
+  node with its external grammars (a nested MDA exposes ``p{i}``, ``q{i}`` as self-couplings; it must NOT be wrapped
+  again when alone, and must be grouped like any discipline when it lies on a cycle with other nodes); the data
+  oracle is the same single dense solve over all harness halves.
 * ``order_disciplines_from_default_inputs`` / ``MDOInitializationChain``: success exactly when an independent
   fixed-point computation says every discipline can be initialised, the order is then executable, otherwise
   ValueError; the chain returns exactly what the harness obtains by running the bodies in that order.
@@ -148,7 +155,7 @@ def _code(v: str) -> int:
     if k == "y":
         p = v[1:].split("_")
         return 4 * int(p[0]) + (int(p[1]) if len(p) > 1 else 5)
-    return {"s": 24, "o": 28, "x": 32}[k] + int(v[1:])
+    return {"s": 24, "o": 28, "x": 32, "p": 36, "q": 40}[k] + int(v[1:])
 
 
 def _size(v: str) -> int:
@@ -224,6 +231,48 @@ def bodies(case):
     return [Body(i, n, edges, loops, case.get("io", "full"), case.get("vars", "edge")) for i in range(n)]
 
 
+class Leaf(Body):
+    """A harness body with explicit inputs / outputs (one half of a node that is realised as a process)."""
+
+    def __init__(self, i, ins, outs, tag):
+        self.i, self.ins, self.outs, self.tag = i, list(ins), list(outs), tag
+        self._blocks = self._consts = None
+
+
+class Node:
+    """Node i of the graph as gemseo sees it: a plain harness discipline or a process made of two harness halves.
+
+    ``ins`` / ``outs``: the grammars of the object handed to the chain under test; ``selfvars``: the variables that are both
+    (self-loop ``s{i}``; for a nested MDA over two halves also its internal couplings ``p{i}``, ``q{i}``, which a
+    ``BaseMDA`` exposes as inputs and outputs); ``leaves``: the harness bodies actually executed.
+    """
+
+    def __init__(self, body: Body, kind: str, loop: bool):
+        i = body.i
+        self.i, self.kind = i, kind
+        p, q = f"p{i}", f"q{i}"
+        if kind == "plain" or (kind == "mda" and loop):
+            # a plain discipline, or the single self-coupled discipline wrapped in an MDA of its own
+            self.leaves = [Leaf(i, body.ins, body.outs, "")]
+            self.ins, self.outs = list(body.ins), list(body.outs)
+        elif kind == "mda":  # two internally coupled halves p <-> q, solved by a nested MDA
+            self.leaves = [Leaf(i, [*body.ins, q], [p], "a"), Leaf(i, [*body.ins, p], [*body.outs, q], "b")]
+            self.ins, self.outs = [*body.ins, q, p], [p, *body.outs, q]
+        elif kind == "chain":  # first half feeds the second one, nested MDOChain
+            self.leaves = [Leaf(i, body.ins, [p], "a"), Leaf(i, [*body.ins, p], body.outs, "b")]
+            self.ins, self.outs = list(body.ins), [p, *body.outs]
+        else:
+            raise ValueError(kind)
+        self.selfvars = set(self.ins) & set(self.outs)
+        self.is_mda = kind == "mda"
+
+
+def system(case):
+    """The nodes of a case; ``case["kinds"]`` (default all "plain") says which nodes are nested processes."""
+    kinds = case.get("kinds") or ["plain"] * case["n"]
+    return [Node(b, kinds[b.i], b.i in case["loops"]) for b in bodies(case)]
+
+
 def monolithic(bs):
     """z = M z + c + B x solved at once.  Returns ({var: value}, kappa_2 of (I-M), ||c+Bx||_2, ||M||_inf)."""
     names = [v for b in bs for v in b.outs]
@@ -260,6 +309,8 @@ def _gemseo():
     from gemseo.core.chains.initialization_chain import MDOInitializationChain, order_disciplines_from_default_inputs
     from gemseo.core.coupling_structure import CouplingStructure
     from gemseo.core.discipline import Discipline
+    from gemseo.mda.gauss_seidel import MDAGaussSeidel
+    from gemseo.mda.jacobi import MDAJacobi
     from gemseo.mda.mda_chain import MDAChain
 
     class Harness(Discipline):
@@ -288,6 +339,7 @@ def _gemseo():
             return self.body.f(input_data)
 
     _CLS.update(Harness=Harness, MDOChain=MDOChain, MDAChain=MDAChain, CouplingStructure=CouplingStructure,
+                MDAJacobi=MDAJacobi, MDAGaussSeidel=MDAGaussSeidel,
                 MDOInitializationChain=MDOInitializationChain, order=order_disciplines_from_default_inputs)
     return _CLS
 
@@ -312,6 +364,35 @@ def build(case, defaults="couplings", pooled=False):
     return bs, [_POOL[b.i].configure(b, case["names"][b.i], defaults) for b in bs]
 
 
+def build_system(case, defaults="couplings", pooled=False):
+    """(nodes, leaf bodies, leaf harness disciplines, the object of each node: harness discipline / nested MDA / nested MDOChain)."""
+    g = _gemseo()
+    nodes = system(case)
+    leaves = [lf for nd in nodes for lf in nd.leaves]
+    if defaults == "couplings":
+        defaults = {u for lf in leaves for u in lf.ins if u[0] != "x"}
+    while pooled and len(_POOL) < len(leaves):
+        _POOL.append(g["Harness"](leaves[0], "pool", set()))
+    discs, objs, k = [], [], 0
+    for nd in nodes:
+        name = case["names"][nd.i]
+        mine = []
+        for lf in nd.leaves:
+            nm = name + lf.tag if len(nd.leaves) > 1 or nd.kind == "plain" else name + "h"
+            mine.append(_POOL[k].configure(lf, nm, defaults) if pooled else g["Harness"](lf, nm, defaults))
+            k += 1
+        discs += mine
+        if nd.kind == "plain":
+            objs.append(mine[0])
+        elif nd.kind == "mda":
+            cls = case.get("nested", "MDAJacobi")
+            extra = {"n_processes": 1} if cls == "MDAJacobi" else {}
+            objs.append(g[cls](mine, name=name, tolerance=TOL, max_mda_iter=MAX_ITER, **extra))
+        else:
+            objs.append(g["MDOChain"](mine, name=name))
+    return nodes, leaves, discs, objs
+
+
 # ------------------------------------------------------------------------------------------------
 # structural oracle
 # ------------------------------------------------------------------------------------------------
@@ -319,9 +400,14 @@ def seq_indices(seq, index_of):
     return [[[index_of.get(id(d), -1) for d in grp] for grp in stage] for stage in seq]
 
 
-def check_structure(cs, discs_by_node, listing, case):
-    """``discs_by_node[i]`` is node i; ``listing`` is the list of node indices in the order given to gemseo."""
-    n, edges, loops = case["n"], [tuple(e) for e in case["edges"]], set(case["loops"])
+def check_structure(cs, discs_by_node, listing, case, nodes=None):
+    """``discs_by_node[i]`` is node i; ``listing`` is the list of node indices in the order given to gemseo.
+
+    ``nodes``: the external view of each node when some are nested processes (default: plain harness disciplines).
+    """
+    n, edges = case["n"], [tuple(e) for e in case["edges"]]
+    if nodes is None:
+        nodes = system({**case, "kinds": None})
     bad = []
     index_of = {id(d): i for i, d in enumerate(discs_by_node)}
     pos = {node: k for k, node in enumerate(listing)}
@@ -348,10 +434,11 @@ def check_structure(cs, discs_by_node, listing, case):
             break
 
     var = (lambda a, b: f"y{a}_{b}") if case.get("vars", "edge") == "edge" else (lambda a, b: f"y{a}")
-    bs = bodies(case)
-    cyclic = {i for i in range(n) if len(scc[i]) > 1 or i in loops}
-    exp_all = {var(i, j) for i, j in edges} | {f"s{i}" for i in loops}
-    exp_strong = {var(i, j) for i, j in edges if scc[i] == scc[j]} | {f"s{i}" for i in loops}
+    bs = nodes
+    selfvars = {v for nd in nodes for v in nd.selfvars}  # s{i}; p{i}, q{i} of a nested MDA over two halves
+    cyclic = {i for i in range(n) if len(scc[i]) > 1 or nodes[i].selfvars}
+    exp_all = {var(i, j) for i, j in edges} | selfvars
+    exp_strong = {var(i, j) for i, j in edges if scc[i] == scc[j]} | selfvars
     exp_weak = {v for i in range(n) if i not in cyclic for v in bs[i].outs}
 
     def cmp(inv, got, exp):
@@ -437,14 +524,17 @@ def part_exec(case, tally):
     n = case["n"]
     edges, loops = [tuple(e) for e in case["edges"]], case["loops"]
     sig = shape(case)
-    ref, kappa, r0, minf = monolithic(bodies(case))
+    nodes0 = system(case)
+    n_proc = sum(nd.kind != "plain" for nd in nodes0)
+    sig["nested"] = "+".join(sorted({nd.kind for nd in nodes0} - {"plain"})) or "none"
+    ref, kappa, r0, minf = monolithic([lf for nd in nodes0 for lf in nd.leaves])
     assert minf <= 0.45, minf  # the family is contractive by construction (Jacobi and Gauss-Seidel converge)
     znorm = math.sqrt(sum(float(v @ v) for v in ref.values()))
     # rounding of a dense solve / forward substitution: a few ulps times conditioning
     eps_bound = 64 * np.finfo(float).eps * kappa * (1.0 + znorm)
     # each inner MDA stops with ||R_k|| <= TOL * ||R_0||, ||R_0|| <= ||c + B x|| + ||M|| ||z||;  error <= kappa * ||R_k||;
-    # at most n groups in sequence, each amplifying the upstream error by at most kappa
-    mda_bound = n * kappa * kappa * TOL * (r0 + znorm) + eps_bound
+    # at most n groups in sequence (+ one nested MDA per process node), each amplifying the upstream error by at most kappa
+    mda_bound = (n + n_proc) * kappa * kappa * TOL * (r0 + znorm) + eps_bound
     acyclic_plain = graph_class(n, edges, loops) == "acyclic" and not loops
     xin = {f"x{i}": _xval(i) for i in range(n)} if case.get("io", "full") == "full" else {}
     orders = case.get("orders", "identity")
@@ -469,10 +559,15 @@ def part_exec(case, tally):
             dflt = "couplings"
             if case.get("initdef"):  # zero start only for the couplings pointing backwards in node order and the self-loops;
                 # the others have to be produced by the MDOInitializationChain that MDAChain(initialize_defaults=True) runs first
-                dflt = {u for b in bodies(case) for u in b.ins if u[0] == "s" or (u[0] == "y" and int(u[1:].split("_")[0]) > b.i)}
-            bs, discs = build(case, defaults=dflt, pooled=POOLED)
-            listed = [discs[k] for k in listing]
+                dflt = {u for nd in nodes0 for lf in nd.leaves for u in lf.ins if u[0] in "spq" or (u[0] == "y" and int(u[1:].split("_")[0]) > nd.i)}
             seq = []
+            try:  # building a nested process is part of the case
+                nodes, leaves, discs, objs = build_system(case, defaults=dflt, pooled=POOLED)
+            except Exception as e:
+                viol("execution-raises", proc, listing, f"building the nested processes: {type(e).__name__}: {str(e)[:300]}")
+                continue
+            nested = [o for nd, o in zip(nodes, objs) if nd.is_mda]
+            listed = [objs[k] for k in listing]
             try:
                 if proc == "MDOChain":
                     cs = g["CouplingStructure"](listed)
@@ -485,13 +580,14 @@ def part_exec(case, tally):
                                           initialize_defaults=bool(case.get("initdef")))
                     cs = chain.coupling_structure
                     inner = chain.inner_mdas
-                sbad, seq = check_structure(cs, discs, list(listing), case)
+                sbad, seq = check_structure(cs, objs, list(listing), case, nodes)
                 for inv, msg in sbad:
                     viol(inv, proc, listing, msg)
                 if proc == "MDAChain":
                     scc = sccs(n, edges)
-                    exp_groups = sorted({tuple(sorted(s)) for i, s in enumerate(scc) if len(s) > 1 or i in loops})
-                    index_of = {id(d): i for i, d in enumerate(discs)}
+                    # a group of several nodes, or a lone self-coupled node that is not itself an MDA
+                    exp_groups = sorted({tuple(sorted(s)) for i, s in enumerate(scc) if len(s) > 1 or (nodes[i].selfvars and not nodes[i].is_mda)})
+                    index_of = {id(d): i for i, d in enumerate(objs)}
                     got_groups = sorted(tuple(sorted(index_of.get(id(d), -1) for d in m.disciplines)) for m in inner)
                     if got_groups != exp_groups:
                         viol("inner-mdas-are-the-cyclic-groups", proc, listing, f"inner MDAs over {got_groups}, cyclic groups {exp_groups}")
@@ -502,12 +598,12 @@ def part_exec(case, tally):
                 tally.case((core_key(case), listing, proc), nontrivial=True, outcome=f"{proc}:raises")
                 continue
             converged = True
-            for m in inner:
+            for m in [*inner, *nested]:
                 if not m.normed_residual <= TOL:
                     converged = False
                     viol("inner-mda-converged", proc, listing, f"{type(m).__name__} over {[d.name for d in m.disciplines]} stopped at normed residual {m.normed_residual:.3e} after {len(m.residual_history)} iterations (tolerance {TOL})")
             if converged:
-                msg = _compare(out, ref, mda_bound if inner else eps_bound)
+                msg = _compare(out, ref, mda_bound if inner or nested else eps_bound)
                 if msg:
                     viol("data-equals-monolithic-solve", proc, listing, msg + f"\n  sequence={seq}")
                 for k, v in xin.items():
@@ -515,15 +611,16 @@ def part_exec(case, tally):
                         viol("inputs-echoed-unchanged", proc, listing, f"{k}: {out.get(k)} vs {v}")
                         break
             runs = [d.n_run for d in discs]
-            if acyclic_plain and runs != [1] * n:
-                viol("each-body-runs-exactly-once", proc, listing, f"body runs per node {runs}")
+            if acyclic_plain and not nested and runs != [1] * len(discs):
+                viol("each-body-runs-exactly-once", proc, listing, f"body runs per harness discipline {dict(zip([d.name for d in discs], runs))}")
             elif min(runs, default=1) < 1:
-                viol("each-body-runs-at-least-once", proc, listing, f"body runs per node {runs}")
+                viol("each-body-runs-at-least-once", proc, listing, f"body runs per harness discipline {dict(zip([d.name for d in discs], runs))}")
             obs["runs"].append({"process": proc, "listing": list(listing), "sequence": seq, "body_runs": runs,
                                 "data": {k: np.asarray(v).tolist() for k, v in sorted(out.items())}})
-            tally.case((core_key(case), listing, proc, case.get("parallel"), case.get("threads"), case.get("inner"), case.get("initdef")),
+            tally.case((core_key(case), listing, proc, case.get("parallel"), case.get("threads"), case.get("inner"), case.get("initdef"),
+                        tuple(case.get("kinds") or ()), case.get("nested")),
                        nontrivial=any(listing.index(i) > listing.index(j) for i, j in edges),
-                       outcome=f"{proc}:n{n}:{seq_outcome(seq)}:{'mda' if inner else 'chain'}",
+                       outcome=f"{proc}:n{n}:{seq_outcome(seq)}:{'mda' if inner else 'chain'}" + (f":nested-{sig['nested']}" if n_proc else ""),
                        sample={"case": case, "listing": list(listing), "sequence": seq, "body_runs": runs} if case["edges"] == SAMPLE_EDGES[3] and not loops and listing[0] == 2 else None)
     obs["reference"] = {k: v.tolist() for k, v in ref.items()}
     obs["bounds"] = {"mda": mda_bound, "rounding": eps_bound, "kappa": kappa}
@@ -672,6 +769,23 @@ def cases(thorough: bool):
                 devs.append({"names": pats.get("same", pats["distinct"]), "orders": "reversed", "parallel": True})
             for d in devs:
                 yield {**base, "orders": orders, **d}
+    # B'. some nodes are *processes*: every non-empty subset of the nodes replaced by (a) a nested MDA (two internally coupled
+    # halves, or the single self-coupled discipline wrapped alone) or (b) a nested MDOChain of two halves; every listing order.
+    # quick: all graphs on <= 2 nodes, loop-free graphs on 3 nodes, nested MDAJacobi; thorough: all graphs on <= 3 nodes, + Gauss-Seidel
+    variants = [("mda", "MDAJacobi"), ("chain", None)] + ([("mda", "MDAGaussSeidel")] if thorough else [])
+    for n in (1, 2, 3):
+        pats = name_patterns(n)
+        for edges, lp in graphs(n, True):
+            if n == 3 and lp and not thorough:
+                continue
+            for size in range(1, n + 1):
+                for subset in itertools.combinations(range(n), size):
+                    for kind, nested in variants:
+                        c = {"part": "exec", "n": n, "edges": edges, "loops": lp, "names": pats["distinct"], "io": "full", "vars": "edge",
+                             "orders": "all", "kinds": [kind if i in subset else "plain" for i in range(n)]}
+                        if nested:
+                            c["nested"] = nested
+                        yield c
     if thorough:  # loop-free graphs on 4 nodes, listing order and its reverse
         for edges, lp in graphs(4, False):
             for orders in ("identity", "reversed"):
@@ -707,6 +821,8 @@ def run(ctx):
         + ("with" if ctx.thorough else "without")
         + " self-loops x name pattern x io layout x edge realisation (structure); n<=3 graphs x every listing permutation, plus one "
         "deviation (names / bare io / parallel stages / threaded Jacobi / Gauss-Seidel / initialize_defaults / shared producer variable) for execution; "
+        "every non-empty subset of the nodes replaced by a nested MDA or by a nested MDOChain of two harness halves x every listing permutation ("
+        + ("all graphs on <= 3 nodes, nested Jacobi and Gauss-Seidel" if ctx.thorough else "all graphs on <= 2 nodes and the loop-free graphs on 3 nodes, nested Jacobi") + "); "
         "n<=3 graphs x 6 default-value patterns for the initialisation order.  A case is non-trivial when the listing order with one "
         "discipline per stage would not be a valid schedule (some edge points backwards in the listing)",
         "exhaustive": True,
